@@ -108,6 +108,21 @@ class MatchLowering:
                     tests.append(t)
                 binds.update(b)
             return (tests[0] if len(tests) == 1 else ast.BoolOp(op=ast.And(), values=tests)), binds
+        if isinstance(pat, ast.MatchSequence) and isinstance(subj, ast.Tuple) and not any(isinstance(p, ast.MatchStar) for p in pat.patterns) \
+                and not any(isinstance(e, ast.Starred) for e in subj.elts):
+            # match (a, b): case (P, Q): the subject is a tuple written on the spot: P against a, Q against b (a display of another
+            # length matches no sequence pattern of this length)
+            if len(subj.elts) != len(pat.patterns):
+                return ast.Constant(False), {}
+            tests, binds = [], {}
+            for e_, p_ in zip(subj.elts, pat.patterns):
+                t, b = self.pattern(p_, copy.deepcopy(e_))
+                if t is not None:
+                    tests.append(t)
+                binds.update(b)
+            if not tests:
+                return None, binds
+            return (tests[0] if len(tests) == 1 else ast.BoolOp(op=ast.And(), values=tests)), binds
         if isinstance(pat, ast.MatchSequence):
             if any(isinstance(p, ast.MatchStar) for p in pat.patterns):
                 raise NoCanon("star pattern")
@@ -126,7 +141,14 @@ class MatchLowering:
     def lower(self, s: ast.Match) -> list[ast.stmt]:
         pre: list[ast.stmt] = []
         subj = s.subject
-        if not _simple_subject(subj):
+        if isinstance(subj, ast.NamedExpr) and isinstance(subj.target, ast.Name):
+            # match (x := E):  x = E; match x
+            pre.append(ast.copy_location(ast.Assign(targets=[ast.Name(id=subj.target.id, ctx=ast.Store())], value=subj.value), s))
+            subj = ast.Name(id=subj.target.id, ctx=ast.Load())
+        tuple_subject = isinstance(subj, ast.Tuple) and all(_simple_subject(e) or isinstance(e, ast.Constant) for e in subj.elts) \
+            and all(isinstance(c.pattern, (ast.MatchSequence, ast.MatchAs)) and (not isinstance(c.pattern, ast.MatchAs) or c.pattern.pattern is None and c.pattern.name is None)
+                    for c in s.cases)
+        if not _simple_subject(subj) and not tuple_subject:
             self.n += 1
             nm = f"m_subject{self.n}"
             pre.append(ast.copy_location(ast.Assign(targets=[ast.Name(id=nm, ctx=ast.Store())], value=subj), s))
